@@ -611,6 +611,14 @@ def one_tamper(args):
                         only.add(m)
             # freeze the MANIFEST entries of untouched levels
             L.write_manifests(root, only=only)
+            if rng.random() < 0.3:
+                # the attacker sets the modification times of what he rewrote to the epoch (or before it):
+                # no time stamp is a reason to skip a checksum when no last-verification time was given
+                t = rng.choice([0, 0, -5, 1])
+                for m in only:
+                    os.utime(os.path.join(root, m), (t, t))
+                if target and target != 'dist' and os.path.exists(os.path.join(root, target)):
+                    os.utime(os.path.join(root, target), (t, t))
         namer = fm.Namer()
         s = fm.project(root, 'Manifest', namer=namer)
         meta = {'seed': seed, 'idx': idx, 'depth': depth, 'j': j, 'k': k, 'kind': kind, 'target': target, 'ssz': ssz}
